@@ -388,6 +388,13 @@ func timedOracle(name string, check func(cScenario, cResult) (string, string)) f
 						res.fail(Failure{Oracle: name, Input: line, What: w, Class: "schedule-depends-on-history"})
 					}
 				}
+				wline := fmt.Sprintf("schedule-probe v6=%v after-write-error", v6)
+				cliNoteLine(wline)
+				res.Evaluations++
+				res.Tags["schedule-after-aborted-call-or-read-error"]++
+				if w := cliScheduleProbeX(v6, false, true); w != "" {
+					res.fail(Failure{Oracle: name, Input: wline, What: w, Class: "schedule-depends-on-history"})
+				}
 			}
 		}
 		if thorough {
